@@ -341,7 +341,7 @@ def elementwise_reset(ctx, fn, field):
     zero = v == const(0) or (v[0] == "call" and v[1].endswith("zero") and not v[2]) or v == const(False)
     body = fn.natural_loop(heads[0])
     every_iter = all(fn.dominates(ws[0]["bb"], b) for b, h in fn.back_edges())
-    its = [w for w in all_writes(ctx, fn) if self_field(w) == field and w["how"] == "borrow" and w.get("name") == "iter_mut"]
+    its = [w for w in all_writes(ctx, fn) if self_field(w) == field and w["how"] == "borrow" and w.get("name") in ("iter_mut", "into_iter")]
     return bool(zero and ws[0]["bb"] in body and every_iter and its)
 
 
@@ -385,3 +385,38 @@ def cellwise_merge(ctx, m, field):
         ok = ok and all(m.dominates(w["bb"], b) for b, hh in m.back_edges() if hh == h)
         return {"form": "in-place" if ok else None, "elem": v, "why": "%s over %s" % (fmt(v), fmt(st) if st else "an unrecognised loop")}
     return {"form": None, "why": fmt(v)}
+
+
+def construction_blocks(ctx, fn, adt):
+    """blocks of `fn` where a value of struct `adt` is put together: the aggregate itself, or the call to a private straight-line
+    helper / sibling constructor whose returned term is that aggregate (`Self::from_parts(epsilon, width)`). The validation that
+    must precede construction is looked up among the facts dominating these blocks."""
+    from ..terms import TermBuilder
+    out = [bi for bi, blk in enumerate(fn.blocks) if not blk.cleanup for st in blk.stmts
+           if st.k == "assign" and st.rv.k == "aggregate" and st.rv.j.get("adt") == adt]
+    if out:
+        return out
+    tb = TermBuilder(fn, ctx.prog)
+    for bi, t in fn.calls():
+        if t.callee_is_local() and ctx.prog.fn(t.callee()) is not None and t.dest is not None:
+            ct = tb.call_term(t, bi)
+            if ct[0] == "adt" and ct[1] == adt:
+                ctx.analysed_fns.add(t.callee())
+                out.append(bi)
+    return out
+
+
+def iterations_on_path(fn, head, p):
+    """how many items the stream loop at `head` handled on path p: visits of the Some-arm of the switch on its next() result
+    (independent of whether next() is a library call — branch event — or a crate-local one resolved by its summary)"""
+    body = fn.natural_loop(head)
+    some_blocks = set()
+    for b in body:
+        blk = fn.blocks[b]
+        if blk.term.k == "switch" and blk.stmts and blk.stmts[-1].k == "assign" and blk.stmts[-1].rv.k == "discr":
+            arms = {int(v): tg for v, tg in blk.term.j["arms"]}
+            if arms.get(0) is not None and arms[0] not in body and 1 in arms:
+                src = blk.stmts[-1].rv.place.local
+                if any(kind == "call" and obj.callee_name() == "next" for (b2, i2, kind, obj) in fn.defs().get(src, [])):
+                    some_blocks.add(arms[1])
+    return sum(1 for b in p.blocks if b in some_blocks)
